@@ -547,17 +547,30 @@ def preroll(ctx, report, folder):
 
 
 def header(ctx, report, folder):
+    """the writer's output, folded, begins with the line the reader's own detect() - folded on that output - looks for"""
+    from . import scc_writer_fold as WF
+    from ..core.constfold import Stub, FoldRaise
     wr = ctx.index.get_function(SCC, "SCCWriter.write")
     det = ctx.index.get_function(SCC, "SCCReader.detect")
     report.covered(det)
     hv = folder.value(CONST, "HEADER")
-    w_uses = [n for n in walk_no_nested(wr.node) if isinstance(n, ast.Name) and n.id == "HEADER"]
-    d_uses = [n for n in walk_no_nested(det.node) if isinstance(n, ast.Name) and n.id == "HEADER"]
-    first = [n for n in walk_no_nested(wr.node) if isinstance(n, ast.Assign) and src(n.targets[0]) == "output"]
-    ok = bool(w_uses) and bool(d_uses) and first and src(first[0].value).startswith("HEADER +")
-    report.check(ok and hv == "Scenarist_SCC V1.0", "R-TABLE-SIBLING", wr,
-                 "the output starts with the HEADER constant the reader's detect compares with",
-                 {"HEADER": hv, "writer_uses": len(w_uses), "detect_uses": len(d_uses)}, "5")
+    W = WF.World(ctx)
+    bad = []
+    for caps in ([(2000000, 4000000, ["hello"])], [(5000000, 6000000, ["one", "two"]), (8000000, 9000000, ["next"])]):
+        try:
+            doc = W.write(caps)
+            accepted = W.F.call_function(det, [doc], {}, self_value=Stub("reader", {}, cls=det.cls))
+        except FoldRaise as e:
+            bad.append({"captions": len(caps), "raises": e.exc_name})
+            continue
+        except AnalysisError as e:
+            raise AnalysisError(f"SCCWriter.write / SCCReader.detect cannot be folded back to back: {e}")
+        first_line = doc.split("\n", 1)[0] if isinstance(doc, str) else None
+        if first_line != "Scenarist_SCC V1.0" or not accepted:
+            bad.append({"captions": len(caps), "first_line": first_line, "detect_accepts": bool(accepted)})
+    report.check(not bad and hv == "Scenarist_SCC V1.0", "R-TABLE-SIBLING", wr,
+                 "the output starts with the Scenarist header line, and the reader's detect accepts it",
+                 {"HEADER": hv, "mismatches": bad[:2]}, "5")
 
 
 def word_shape(ctx, report, folder):
